@@ -225,7 +225,7 @@ mutual
       exact effectFree_conforms e (by simpa [effectFree] using h) T (allNan_append.mp hk).1 hc
     | .existsExpr e p, h, T, hk, hc => by
       rw [typeInfo]; rw [checks] at hk
-      exact effectFree_conforms e (by simpa [effectFree] using h) T hk hc
+      exact effectFree_conforms e (by simpa [effectFree] using h) T (allNan_append.mp (allNan_append.mp hk).1).1 hc
     | .arr es, h, T, hk, hc => by
       rw [typeInfo]; rw [checks] at hk
       exact effectFreeS_conforms es (by simpa [effectFree] using h) T {} hk hc
